@@ -15,6 +15,11 @@ THEOREMS = [
     "C08.maintenance_noop",
     "C08.maintenance_transparent",
     "C08.maintenance_exact",
+    # retractions / insertions made by rule actions during fire_all, reset_with_deffacts (reach ops, desugared by the driver)
+    "C08.action_is_op",
+    "C08.actions_are_history",
+    "C08.action_retract_exact",
+    "C08.reset_starts_new_history",
 ]
 N = {"quick": 5000, "thorough": 50000}
 EXHAUSTIVE = {"quick": True, "thorough": True}
@@ -41,6 +46,26 @@ RULE = ("cases = corpus + EVERY history of length <=5 (thorough: <=6) creating a
         "repeat the previous step's observations (oracle clause `maintenance` = C08.unweave in Spec.lean, evaluated by the driver, which then removes the step; "
         "theorems maintenance_noop / maintenance_transparent / maintenance_exact: "
         "model and Spec see the same history without it, so every later step is also compared with the run that never cleared). "
+        "+ the REACH families (about 3,500 histories in the quick tier; every engine path through which facts are inserted, updated or "
+        "retracted, not only the four API calls): ops `F<a>` = engine.insert(trigger fact) [one step], then reset() + fire_all() with "
+        "the fired rule's action returning one ActionResult [second step]: Retract(h) (what GRL retract($X) produces), "
+        "RetractByType(a type only fact h has), InsertFact, InsertLogicalFact{premises}, Update(h), None, ActivateAgendaGroup, "
+        "CallFunction, ScheduleRule, or modifying fields of the F/D facts (written back by fire_all with working_memory.update); "
+        "`K<h>` = engine.update(h, kill=true) + fire_all() with GRL-loaded rules `when F.kill == true then retract($F)` (types F, D); "
+        "`N` / `P` / `D` / `G` = the insert twins (a fact type of its own, insert_with_template, load_deffacts_by_name, load_deffacts); "
+        "`Lk<ps>` = insert_logical whose premises were first looked up with resolve_premise_keys; `U<h>` engine.update, `A` add_rule "
+        "in mid-history, `Z` reset(); `W` = reset_with_deffacts() followed by normal use (a new history: handles restart at 1). "
+        "The driver DESUGARS every reach op into the model's own operations (Driver/C08.lean parseTok: F<a> -> insert, then the "
+        "operation the action stands for [theorems action_is_op / actions_are_history / action_retract_exact]; ops that insert and "
+        "retract nothing -> a step that must repeat the previous sets [clause `maintenance`]; W -> model and Spec oracle start again "
+        "from init [reset_starts_new_history]). Families: EVERY history of length <=3 (thorough <=4) over {I, N, Fi, L[p], Fl[p], Fr h, "
+        "K h, Ft h}; 10 fixed support graphs x every fact retracted by Fr / K / R / Ft (also after A, U, Fm) and every ordered pair "
+        "of retractions mixing the ways; N/3 random histories over the whole alphabet (7 of 8 well-formed, 1 in 5 with one or two W "
+        "in the middle), deep chains (33..100) whose root a rule action retracts, long mixed sessions of up to 90 operations. "
+        "In cases with reach ops or at most 40 handles further public views are cross-checked after every step (flags -> "
+        "oracle:inconsistent-*): tms().get_justifications vs the twin TMS, working_memory().get_by_type over all types vs get(), the "
+        "fact type of every handle, working_memory().stats(), fire_all()'s fired list, update()'s result, the lookup of resolve_premise_keys, "
+        "get_modified_handles/get_retracted_handles after the clear. "
         "Each history is run on IncrementalEngine (real code) plus a stand-alone TruthMaintenanceSystem fed the same calls "
         "(to observe the return value of retract_with_cascade) and on the Lean model; after EVERY operation the result, "
         "working_memory().get(h) for every handle, is_logical/is_explicit/has_valid_justification and tms().stats() are diffed "
@@ -53,14 +78,21 @@ TRUSTED = [
     "+ WorkingMemory::{insert,retract,get} by the correspondence check only (differential testing)",
     "the explicit-stack formulation of the recursive retract_with_cascade (same visiting and emission order; compared in order on every case)",
     "harness/src/bin/c08.rs, Driver/C08.lean parsing/printing glue, check.py diff",
+    "the driver's desugaring of the reach ops (Driver/C08.lean parseTok / splitW: which model operations a rule action, an insert twin, "
+    "an update or reset_with_deffacts stands for; the trigger side of fire_all - agenda, conditions, field write-back - is not modelled, "
+    "it must insert and retract nothing, which the `maintenance` clause checks on every such step)",
 ]
 ASSUMPTIONS = [
     "domain (the property's quantifier): every premise is live when its justification is recorded, and a further justification "
     "(tms_mut().add_*_justification) is recorded only for a fact that is itself live; outside it the model still mirrors the code "
     "(checked) but the property clauses are not claimed (theorems support_invariant_needs_wf, rejustified_dead_handle)",
-    "working memory is changed only through the engine (working_memory_mut().insert/retract/update, remove_justifications(), clear(), "
-    "reset_with_deffacts() are not part of a history); the one call made through working_memory_mut() is clear_modification_tracking(), "
-    "a maintenance call that by contract changes no fact: histories may contain it anywhere and it must be invisible",
+    "working memory is changed only through the engine (working_memory_mut().insert/insert_from_stream/retract/update/clear(), "
+    "tms_mut().remove_justifications() and tms_mut().clear() on their own are not part of a history: they edit one of the two stores "
+    "behind the engine's back); the one call made through working_memory_mut() is clear_modification_tracking(), "
+    "a maintenance call that by contract changes no fact: histories may contain it anywhere and it must be invisible; "
+    "reset_with_deffacts() IS part of a history: it ends it and starts a new one (needs the repair F-C08-reset: the TMS is cleared too)",
+    "a rule action's RetractByType is driven only for fact types with a single fact (`N` facts): with several live facts of one type "
+    "the engine retracts 'the first' in HashSet order, which no deterministic model can name; one ActionResult per firing, one firing per fire_all",
     "fact handles are u64 modelled as Nat; fact type/data, agenda and rule propagation do not influence presence or support",
 ]
 
